@@ -124,6 +124,55 @@ theorem framing_needed : ∃ f bs, decode f bs ≠ (decode [] bs).map (dropTypes
          0,0,0,1, 0,0,0,0, 0,0,0,7, 0,0,0,0, 0,0,0,1, 0,0,0,2, 0,0,0,0, 0,0,0,3, 0,0,0,4, 0,0,0,0,
          0,0,0,2, 0,0,0,12, 0,0,0,9, 0,0,0,0, 0,0,0,0], by decide⟩
 
+/-- one loop iteration looks at the filter list only to ask whether it lists the format of the sample at
+hand, and for every format other than 1 (flow) and 2 (counter) a listed and an unlisted sample are skipped
+alike — by the declared length -/
+theorem sampleStep_depends (f g : List Nat) (h1 : 1 ∈ f ↔ 1 ∈ g) (h2 : 2 ∈ f ↔ 2 ∈ g) :
+    sampleStep f = sampleStep g := by
+  funext bs
+  unfold sampleStep
+  split
+  · rename_i ent fmt len r _
+    by_cases he : ent ≠ 0
+    · rw [if_pos he, if_pos he]
+    · by_cases hf1 : fmt = 1
+      · subst hf1; rw [if_neg he, if_neg he]; simp only [h1]
+      · by_cases hf2 : fmt = 2
+        · subst hf2; rw [if_neg he, if_neg he]; simp only [h2]
+        · rw [if_neg he, if_neg he]; simp only [hf1, hf2, if_false]
+          by_cases a : fmt ∈ f <;> by_cases b : fmt ∈ g <;> simp only [a, b, if_true, if_false]
+  all_goals rfl
+
+/-- **C18 (all filter lists: "empty, flow, counter, unknown types, several")**: the decoded datagram depends on
+the filter list only through whether it lists 1 and whether it lists 2 — for **every** octet string, framed or
+not, errors included, with no hypothesis on the datagram.  Order, repetition and unknown types in the list are
+immaterial, so the four lists `[]`, `[1]`, `[2]`, `[1, 2]` stand for all of them. -/
+theorem filter_depends (f g : List Nat) (h1 : 1 ∈ f ↔ 1 ∈ g) (h2 : 2 ∈ f ↔ 2 ∈ g) (bs : Bytes) :
+    decode f bs = decode g bs := by
+  unfold decode; rw [sampleStep_depends f g h1 h2]
+
+/-- two lists with the same members (a permutation, a list with repetitions, …) filter alike -/
+theorem filter_same_members (f g : List Nat) (h : ∀ t, t ∈ f ↔ t ∈ g) (bs : Bytes) :
+    decode f bs = decode g bs := filter_depends f g (h 1) (h 2) bs
+
+/-- every filter list behaves as one of the four canonical ones -/
+theorem filter_canonical (f : List Nat) (bs : Bytes) :
+    decode f bs = decode ((if 1 ∈ f then [1] else []) ++ (if 2 ∈ f then [2] else [])) bs := by
+  apply filter_depends <;> by_cases a : 1 ∈ f <;> by_cases b : 2 ∈ f <;> simp [a, b]
+
+/-- **C18 (several occurrences of the option)**: the list built by two occurrences of `-sflow-type-filter`
+(`gen_filter_flag_appends`: the second appends to the first) removes what either removes -/
+theorem filter_append (f g : List Nat) (bs : Bytes) (hfr : FramedDatagram (f ++ g) bs) :
+    decode (f ++ g) bs = (decode [] bs).map (dropTypes f ∘ dropTypes g) := by
+  rw [filter_spec _ bs hfr]
+  have : ∀ d, dropTypes (f ++ g) d = (dropTypes f ∘ dropTypes g) d := by
+    intro d; simp only [dropTypes, Function.comp, List.mem_append]
+    by_cases a : 1 ∈ f <;> by_cases b : 1 ∈ g <;> by_cases c : 2 ∈ f <;> by_cases e : 2 ∈ g <;> simp [a, b, c, e]
+  cases decode [] bs <;> simp [Res.map, this]
+
+/-- non-vacuity of `filter_depends`: a list with unknown types, repetitions and another order, on the witness -/
+example : decode [7, 1, 4096, 1] witness = decode [1] witness := filter_depends _ _ (by decide) (by decide) _
+
 /-- **Tie (how the filter list is configured)**: the property quantifies over filter LISTS; how the option builds its
 list is package `vflow`'s `arrUInt32Flags.Set`, regenerated here: every occurrence of `-sflow-type-filter` (and the
 configuration file's entry before them) APPENDS its comma-separated types, so a type listed anywhere is in the list the
